@@ -5,6 +5,7 @@ CONSTANTS
   MaxLen = 3
   HasDtor = TRUE
   HasCmp = FALSE
+  CmpSucc = FALSE
 INIT Init
 NEXT Next
 CHECK_DEADLOCK FALSE
